@@ -39,7 +39,9 @@ PROVED = ('Over the model of the retry machinery with fix F10, for every list of
           'order, including a timer that was cancelled after waking up): a pending pattern always has a live timer carrying '
           'the request, its pattern and its timeout, on an open link of the session the request was sent in; when that timer '
           'runs the request is transmitted on that link and a timer with the same timeout is started; a request that is not '
-          'pending (answered, superseded, or its link closed/failed) is never transmitted again unless sent again; an arriving '
+          'pending (answered, superseded, or its link closed/failed) is never transmitted again unless sent again (closed form '
+          'for distinct request ids: after any history, once the longest pending prefix of an arrival belongs to request r, r is '
+          'never transmitted in any continuation); an arriving '
           'packet removes exactly the longest pending pattern that is a prefix of header+data and stops only that timer; on a '
           'link that does not need resending no timer is ever created; nothing is transmitted without an open link and every '
           'transmission goes to the link of the session in which the request was sent.')
@@ -259,6 +261,9 @@ def check_case(case):
     def fail(cls, detail, expected=None, observed=None):
         return {'class': cls, 'case': case, 'expected': expected,
                 'observed': observed if observed is not None else res['out'], 'detail': detail}
+    if res.get('died'):
+        return fail('dispatcher_died_in_check_for_answers', 'an exception (%s) left _IncomingPacketHandler.run while a '
+                    'received packet was checked against the pending patterns' % res['died'])
     link, sess, nr, now = False, -1, True, 0
     reqs = {}           # rid -> dict
     pending = {}        # pattern(tuple) -> [rids sharing the pattern, newest last]
@@ -378,9 +383,28 @@ def _shrink(f):
     return best
 
 
+def enum_cases(depth):
+    """Small-scope enumeration: every sequence of `depth` events over a fixed alphabet after open+send (two patterns
+    sharing a prefix, answers for each, close/reopen, time, wake-up and run of the first three timers)."""
+    import itertools
+    A = [['send', 1, 0x90, [9], [1, 2], None], ['send', 2, 0x90, [8], [1], 100], ['recv', 0x90, [1, 2, 3]],
+         ['recv', 0x90, [1, 5]], ['close'], ['open', True], ['adv', 200], ['expire', 0], ['run', 0], ['expire', 1],
+         ['run', 1], ['expire', 2], ['run', 2]]
+    head = [['open', True], ['send', 0, 0x90, [7], [1], None]]
+    for seq in itertools.product(range(len(A)), repeat=depth):
+        evs, rid = list(head), 10
+        for k in seq:
+            e = list(A[k])
+            if e[0] == 'send':          # request ids are unique per send event
+                e[1] = rid
+                rid += 1
+            evs.append(e)
+        yield {'events': evs, 'ideal': False}
+
+
 def oracle(ctx, deep=False):
     fails, seen = [], set()
-    cases = corpus_cases()
+    cases = corpus_cases() + list(enum_cases(ctx.scale(3, 5)))
     for _ in range(ctx.scale(4000, 80000) * (3 if deep else 1)):
         cases.append(gen_case(ctx.rng, ideal=ctx.rng.random() < 0.6))
     for c in cases:
